@@ -449,40 +449,6 @@ def agrees_with_spec(ev, ck, sp):
     return ev == ("ok", want) and ck == ("ok", sp[1])
 
 
-def py_kvac(f):
-    """Python mirror of Eval.K_vacuous_forall on an (uninstantiated) isla formula: would
-    substitute_expressions drop a universal quantifier?  (recomputed and CHECKED in Coq)"""
-    def go(f):   # returns (free variables after instantiation, dropped?)
-        if isinstance(f, L.SMTFormula):
-            return set(v for v in f.free_variables() if v != START), False
-        if isinstance(f, (L.StructuralPredicateFormula, L.SemanticPredicateFormula)):
-            return set(a for a in f.args if isinstance(a, L.Variable) and a != START), False
-        if isinstance(f, L.PropositionalCombinator):
-            fv, d = set(), False
-            for a in f.args:
-                x, y = go(a)
-                fv |= x
-                d = d or y
-            return fv, d
-        if isinstance(f, L.QuantifiedFormula):
-            fv, d = go(f.inner_formula)
-            if isinstance(f, L.ForallFormula) and f.bind_expression is None and f.bound_variable not in fv:
-                return fv, True
-            if isinstance(f.in_variable, L.Variable) and f.in_variable != START:
-                fv = fv | {f.in_variable}
-            bound = {f.bound_variable}
-            if f.bind_expression is not None:
-                bound |= set(f.bind_expression.bound_variables())
-            return fv - bound, d
-        if isinstance(f, L.NumericQuantifiedFormula):
-            fv, d = go(f.inner_formula)
-            return fv - {f.bound_variable}, d
-        raise Unencodable(type(f).__name__)
-    if START not in L.VariablesCollector.collect(f):
-        return False
-    return go(f)[1]
-
-
 def py_keps(f, grammar):
     """Python mirror of EvalFacts.K_mexpr_eps_shape: some match-expression prefix tree has a closed
     leaf labelled with a nonterminal"""
@@ -527,6 +493,29 @@ def finding_witness_outcome(w):
     return ev, ck, sp
 
 
+def replay_corpus(run):
+    """corpus/C03/*.json: minimized past disagreements and witnesses of FIXED findings; each must
+    satisfy the property on the current tree (a regression is reported with the witness)"""
+    import glob
+    import os
+    n = 0
+    for path in sorted(glob.glob(os.path.join(lib.VERIF, "corpus", "C03", "*.json"))):
+        w = json.load(open(path))
+        try:
+            ev, ck, sp = finding_witness_outcome(w)
+        except Exception as ex:
+            run.violation({"kind": "corpus case not evaluable", "file": path, "error": repr(ex)[:300],
+                           "obligation": "corpus/C03"}, found_input=False)
+            continue
+        n += 1
+        run.count(("corpus", os.path.basename(path)), True)
+        if not agrees_with_spec(ev, ck, sp):
+            run.violation({"kind": "corpus case fails again (regression of a fixed defect)", "file": path,
+                           "witness": w, "evaluate": ev, "check": ck, "spec": sp,
+                           "how_to_replay": "./check C03 --replay <this file>"})
+    run.cov["corpus_cases"] = n
+
+
 def known_entries():
     """open/fixed entries of C03 (known_findings.json is generated from harness/meta/*.findings.json)"""
     es = lib.known_findings("C03")
@@ -555,10 +544,10 @@ def replay_known(run):
 # main
 # --------------------------------------------------------------------------
 IMPORTS = "EvalAtoms"
-OK_DEF = ("fun c : tree * formula atom * res TV * res bool * bool * bool * bool => "
-          "let '(T, f, ev, ck, sp, kv, cmp_spec) := c in "
+OK_DEF = ("fun c : tree * formula atom * res TV * res bool * bool * bool => "
+          "let '(T, f, ev, ck, sp, cmp_spec) := c in "
           "res_eqb tv_eqb (m_evaluate T CST f) ev && res_eqb Bool.eqb (m_check T CST f) ck "
-          "&& Bool.eqb (m_kvac T CST f) kv && (negb cmp_spec || Bool.eqb (s_sat T CST f) sp)")
+          "&& (negb cmp_spec || Bool.eqb (s_sat T CST f) sp)")
 CST_DEF = f"Definition CST := {g_var(START)}.\n"
 
 
@@ -580,6 +569,7 @@ def run(run):
     proof_ok = run.proof_stage()
     t_1 = time.time()
     replay_known(run)
+    replay_corpus(run)
     t_2 = time.time()
     known = [e for e in known_entries() if e.get("status") == "open"]
     known_by_class = {e["class"]: e for e in known}
@@ -659,19 +649,17 @@ def run(run):
                 meta = {"grammar": gname, "tree": tree_json(t), "input": str(t), "formula": str(fobj),
                         "source": src, "how": how, "evaluate": ev, "check": ck, "spec": sp,
                         "key": key, "wide": wide}
-                kv = py_kvac(fobj)
                 try:
                     lit = g_formula(fobj, g)
                 except Unencodable as e:
                     hist["unencodable"] += 1
                     meta["unencodable"] = str(e)
                     lit = None
-                meta["kvac"] = kv
                 meta["keps"] = py_keps(fobj, g)
                 if lit is not None:
                     cmp_spec = sp[0] == "ok"
                     cs.append(f"({tname}, {lit}, {g_out_tv(ev)}, {g_out_b(ck)}, {g_bool(sp[1] if cmp_spec else False)}, "
-                              f"{g_bool(kv)}, {g_bool(cmp_spec)})")
+                              f"{g_bool(cmp_spec)})")
                     ms.append(meta)
                 if not agrees_with_spec(ev, ck, sp):
                     spec_failures.append(meta)
@@ -716,7 +704,7 @@ def run(run):
             if not agrees_with_spec(ev, ck, sp):
                 spec_failures.append({"grammar": gname, "tree": tree_json(t), "input": str(t), "formula": src,
                                       "source": src, "how": "numeric", "evaluate": ev, "check": ck, "spec": sp,
-                                      "key": (gname, src, "numeric"), "wide": False, "kvac": False})
+                                      "key": (gname, src, "numeric"), "wide": False})
 
     t_4 = time.time()
     run.cov["phase_seconds"] = {"proof_stage": round(t_1 - t_0, 1), "known_replay": round(t_2 - t_1, 1),
@@ -757,13 +745,12 @@ def run(run):
     run.cov["disagreements_checked"] = len(corr_bad) + len(spec_failures)
     unknown_fail = []
     for m in spec_failures:
-        # divergence kind of all three open classes: a DEFINITE verdict opposite to the spec
-        # (never an exception, never UNKNOWN); K_vacuous_forall only ever turns TRUE into FALSE
+        # divergence kind of the open classes: a DEFINITE verdict opposite to the spec (never an
+        # exception, never UNKNOWN).  The former class K_vacuous_forall is FIXED (/repo 0230f8f):
+        # such a divergence is a VIOLATION again.
         definite = (m["evaluate"][0] == "ok" and m["evaluate"][1] in ("TT", "FF") and m["check"][0] == "ok")
         cls = None
-        if definite and m.get("kvac") and m["evaluate"][1] == "FF":
-            cls = "K_vacuous_forall"
-        elif definite and m.get("wide"):
+        if definite and m.get("wide"):
             cls = "K_wide"
         elif definite and m.get("keps"):
             cls = "K_mexpr_eps_shape"
@@ -792,9 +779,9 @@ def run(run):
         except Exception:
             pass
         run.violation({"kind": "correspondence broken but the spec verdicts agree",
-                       "first": {k: w[k] for k in ("grammar", "input", "formula", "how", "evaluate", "check", "spec", "kvac")},
+                       "first": {k: w[k] for k in ("grammar", "input", "formula", "how", "evaluate", "check", "spec")},
                        "count": len(corr_bad), "diag": diag,
-                       "obligation": "correspondence Eval.v (m_evaluate/m_check/K_vacuous_forall/satb) <-> "
+                       "obligation": "correspondence Eval.v (m_evaluate/m_check/satb) <-> "
                                      "isla.evaluator.evaluate / ISLaSolver.check / spec_sem.py"},
                       found_input=False)
     if not proof_ok:
@@ -816,8 +803,8 @@ def replay(path):
     if not w:
         print("replay file names an obligation, not an input:", d.get("obligation"))
         return 1
-    g = GRAMMARS[w["grammar"]]
-    t = tree_from_json(w["tree"])
+    g = WITNESS_GRAMMARS[w["grammar"]]
+    t = tree_from_json(w["tree"]) if "tree" in w else T.from_parse_tree(next(EarleyParser(g).parse(w["input"])))
     src = w.get("source")
     if src is None:
         print("witness formula was built directly (match expression); formula:", w["formula"])
